@@ -1023,6 +1023,8 @@ def server_collect(prop, res, tr):
             sig = {"race": "rename-window", "predicate": "foreign-problem-in-response"}
         elif racetag == "stale-task-write" and what in ("stored-models-differ-from-definition-for-code", "graph-not-faithful"):
             sig = {"race": "stale-task-write", "predicate": "stored-result-of-other-code"}
+        elif racetag == "delete-window" and what == "foreign-problem-in-response":
+            sig = {"race": "delete-window", "predicate": "foreign-problem-in-response"}
         elif racetag == "stale-session" and what in ("foreign-problem-in-response", "foreign-document-deleted-or-reowned"):
             sig = {"race": "stale-session", "predicate": "foreign-access-through-stale-cookie"}
         kf = known_match(prop, sig) if sig else None
